@@ -61,30 +61,31 @@ func (p *frameParser) feed(b []byte, onFrame func(w, k, n int, ok bool)) {
 
 // peerSpec is the script of one connection: what the peer does and how the handler behaves on it.
 type peerSpec struct {
-	id       int
-	seed     uint64
-	network  string
-	total    int    // bytes the peer sends
-	segs     []int  // segment sizes (sum = total)
-	lockstep bool   // wait until the handler has been given each segment before sending the next
-	shut     string // how it ends: "fin" (half close, then read to EOF), "close", "rst", "server" (the handler closes), "abandon" (stay open until shutdown)
-	peerRead string // "normal", "slow", "stall"
-	consume  string // handler: "all", "dribble", "mixed", "lazy", "peekonly"
-	reply    string // handler: "none", "frames", "big"
-	openOut  int    // body length of the OnOpen reply frame (-1: none)
-	closeAt  int    // the handler closes once it has consumed this many bytes (-1: never)
-	closeHow string // "action", "elclose", "async", "asynccb", "shutdown"
-	asyncW   int    // asynchronous writer goroutines
-	asyncN   int    // frames per asynchronous writer
-	wakes    int    // Wake requests issued by a user goroutine
-	udp      bool
-	stopOn   string // "", "OnOpen", "OnTraffic", "OnClose": this connection's callback returns Shutdown
-	flood    bool   // the loop is held inside the first OnTraffic until the asynchronous writers have issued everything
-	recSize  int    // record size of the "record" consumption policy (0: 2..4 by seed)
-	openHold int    // milliseconds OnOpen keeps the loop busy (the peer's data and its FIN pile up meanwhile)
-	budget   int    // bytes of big reply frames (0: by socket buffer size and reader speed)
-	earlyFin bool   // the peer half-closes right after sending, while it is not reading yet (the answer is still piling up)
-	sendOnly int    // the peer stops sending after this many bytes (0: it sends everything): the handler is left with an unfinished stream
+	id         int
+	seed       uint64
+	network    string
+	total      int    // bytes the peer sends
+	segs       []int  // segment sizes (sum = total)
+	lockstep   bool   // wait until the handler has been given each segment before sending the next
+	shut       string // how it ends: "fin" (half close, then read to EOF), "close", "rst", "server" (the handler closes), "abandon" (stay open until shutdown)
+	peerRead   string // "normal", "slow", "stall"
+	consume    string // handler: "all", "dribble", "mixed", "lazy", "peekonly"
+	reply      string // handler: "none", "frames", "big"
+	openOut    int    // body length of the OnOpen reply frame (-1: none)
+	closeAt    int    // the handler closes once it has consumed this many bytes (-1: never)
+	closeHow   string // "action", "elclose", "async", "asynccb", "shutdown"
+	asyncW     int    // asynchronous writer goroutines
+	asyncN     int    // frames per asynchronous writer
+	wakes      int    // Wake requests issued by a user goroutine
+	udp        bool
+	stopOn     string // "", "OnOpen", "OnTraffic", "OnClose": this connection's callback returns Shutdown
+	flood      bool   // the loop is held inside the first OnTraffic until the asynchronous writers have issued everything
+	recSize    int    // record size of the "record" consumption policy (0: 2..4 by seed)
+	openHold   int    // milliseconds OnOpen keeps the loop busy (the peer's data and its FIN pile up meanwhile)
+	budget     int    // bytes of big reply frames (0: by socket buffer size and reader speed)
+	earlyFin   bool   // the peer half-closes right after sending, while it is not reading yet (the answer is still piling up)
+	sendOnly   int    // the peer stops sending after this many bytes (0: it sends everything): the handler is left with an unfinished stream
+	closeOther int    // id of another connection of the same loop that this one's first OnTraffic closes with EventLoop.Close (0: none)
 	// runtime
 	delivered int64 // bytes the handler has been given (for lock-step peers)
 	laddr     string
@@ -574,6 +575,21 @@ func (h *vhandler) OnTraffic(c Conn) Action {
 		case <-h.parkRelease:
 		case <-time.After(10 * time.Second):
 		}
+	}
+	if sp.closeOther != 0 && vc.callbacks == 1 {
+		// a close requested from inside another connection's callback: if the loop already holds an event for that
+		// connection (both were reported ready by the same wait), that event is now about a number nobody owns
+		h.conns.Range(func(_, v any) bool {
+			o := v.(*vconn)
+			if o.spec.id == sp.closeOther && !o.closed && o.c.(*conn).loop == c.(*conn).loop && o.c.(*conn).opened {
+				o.closed = true
+				h.rec.emit("CloseReq", "c", o.spec.id, "how", "elclose")
+				err := c.EventLoop().Close(o.c)
+				h.rec.emit("ElCloseRet", "c", o.spec.id, "err", errClass(err))
+				return false
+			}
+			return true
+		})
 	}
 	if sp.flood && vc.callbacks == 1 {
 		select { // hold the loop so that the requests pile up in its queues
